@@ -322,3 +322,8 @@ RULES = [
     Rule("C11.E12", lambda ctx: __import__("sa.mypyx", fromlist=["x"]).cross_check(ctx, [f"{DS}.GPTDataset.save"], "C11.E12"), floor=1,
          doc="thorough: call graph over-approximates mypy's type-resolved edges on the save closure", tier="thorough"),
 ]
+
+from sa import exits as _exits  # noqa: E402
+
+RULES.append(Rule("C11.RX", _exits.make_rule("C11", "C11.RX", _exits.SCOPES["C11"]), floor=1,
+                  doc="rejection conditions: the anchored functions refuse inputs only under the conditions confirmed on the pinned tree (E16)"))
